@@ -227,8 +227,8 @@ End Check.
    (integer literals of the function in source order: 0, 2, 33, 3, 3, 3);  cleanByHeight: `top-3 < base.GenesisHeight`
    is the 7th integer literal of the function *)
 From MV Require Gen.C24.
-Definition deep_proposal : Z := nth 4 Gen.C24.new_temp_pool_ints 0.
-Definition deep_ballot : Z := nth 5 Gen.C24.new_temp_pool_ints 0.
-Definition guard_literal : Z := nth 6 Gen.C24.clean_by_height_ints 0.
+Definition deep_proposal : Z := nth 0 Gen.C24.clean_proposal_deep_ints 0.
+Definition deep_ballot : Z := nth 0 Gen.C24.clean_ballot_deep_ints 0.
+Definition guard_literal : Z := nth 0 Gen.C24.clean_guard_ints 0.
 
 Definition check (c : list item) : bool := check_from deep_ballot deep_proposal guard_literal init c.
